@@ -233,7 +233,7 @@ def run_case(ctx, case):
         zb, wide = (1 - 1e-5, 2e-3) if f32 else (1 - 1.01e-8, 1.5e-4)
         node_in_band = np.abs(nodeP[:, 2]) > zb  # a corner inside the band may itself be reported at the pole
         cond = np.array([len(r) / max(float(np.linalg.norm(nodeP[r].sum(axis=0))), 1e-12) for r in rings])  # same amplification for very large faces
-        band = np.where((np.abs(want[:, 2]) > zb) | np.array([bool(node_in_band[r].any()) for r in rings]), wide, ctol * cond)
+        band = np.where(np.array([bool(node_in_band[r].any()) for r in rings]), 1.5 * wide, np.where(np.abs(want[:, 2]) > zb, wide, ctol * cond))
         err = float(np.max(ref.angle(want, got) - band))
         ctx.check("derived_centre_is_corner_mean", err < 0, {"kind": "face", "prov": prov["node"]}, {"max_err_over_tolerance_rad": err, "case": case})
     if equal_radius and "edge_ll" not in supplied and "edge_xyz" not in supplied:
@@ -244,7 +244,8 @@ def run_case(ctx, case):
         node_in_band = np.abs(nodeP[:, 2]) > zb
         # the midpoint of a long edge is the direction of a short vector (|a + b| = 2 cos(half the arc)): rounding is amplified by 2 / |a + b|
         cond = 2.0 / np.maximum(np.linalg.norm(nodeP[en[:, 0]] + nodeP[en[:, 1]], axis=1), 1e-12)
-        band = np.where((np.abs(want[:, 2]) > zb) | node_in_band[en[:, 0]] | node_in_band[en[:, 1]], wide, ctol * cond)
+        # (a corner reported at the pole shifts the expected midpoint by up to half the snap, and the midpoint may be snapped itself: 1.5 x)
+        band = np.where(node_in_band[en[:, 0]] | node_in_band[en[:, 1]], 1.5 * wide, np.where(np.abs(want[:, 2]) > zb, wide, ctol * cond))
         err = float(np.max(ref.angle(want, got) - band))
         ctx.check("derived_centre_is_corner_mean", err < 0, {"kind": "edge", "prov": prov["node"]}, {"max_err_over_tolerance_rad": err, "case": case})
     # supplied centres are carried (same positions)
